@@ -148,7 +148,7 @@ def V2.step (st : V2) : Op → V2 × Obs
       match r.rotatedActive with
       | none => (st1, .err)
       | some act =>
-        if i - 1 > act.length then (st1, .err)
+        if i < 2 ∨ i - 1 > act.length then (st1, .err)
         else match act[i - Generated.KeyNames.v2DestroyIndexOffset]? with
           | none => (st1, .panic)
           | some q => match r.find q with
